@@ -550,6 +550,77 @@ class Storm:
             c.close()
         self.quiesce(srv, expect_users=[], expect_conns=0, what="flood teardown")
 
+    # ---------------------------------------------------------------- W10 a backlogged receiver still gets answers
+    def w_backlog(self, srv, k, n):
+        """k senders pipeline n messages each to one receiver that reads nothing (some 10 MB pile up in the kernel buffers
+        and in its queue inside the server); then the receiver sends a PING and starts reading: its PONG must come long
+        before the end of the backlog (a connection's own commands are served while messages for it are waiting), every
+        message arrives once, per sender in order"""
+        import threading
+        self.rounds += 1
+        pfx = self.uid("b")
+        snd = open_many(srv, k, pfx + "s", password=self.password)
+        vic = wire.Client(srv.port, name="vic", timeout=60.0, rcvbuf=4096)
+        vic.keep_transcript = False
+        if self.password:
+            vic.send("PASS " + self.password)
+        vnick = pfx + "v"
+        vic.send("NICK " + vnick)
+        vic.send("USER v 0 * :backlogged")
+        vic.read_until(lambda m: m.verb == "221")
+        pad = "z" * 200
+        ths = []
+        for i, c in enumerate(snd):
+            burst = b"".join(("PRIVMSG %s :bl %d %d %s\r\n" % (vnick, i, j, pad)).encode() for j in range(n))
+            burst += b"PING end\r\n"
+            c.sock.settimeout(120.0)
+            t = threading.Thread(target=lambda c=c, burst=burst: c.send_raw(burst), daemon=True)
+            t.start()
+            ths.append(t)
+        for t in ths:
+            t.join(120.0)
+        try:
+            for c in snd:
+                c.read_until(lambda m: m.verb == "PONG" and m.params[-1:] == ["end"], 120.0)
+        except (wire.Closed, wire.Timeout) as ex:
+            self.bad("storm:backlog-sender", "a sender got no answer while its receiver was backlogged (%s)" % type(ex).__name__)
+        # everything is queued for the victim now; it asks something and starts reading
+        vic.send("PING mine")
+        snd[0].send("PRIVMSG %s :FLUSH" % vnick)
+        try:
+            lines = vic.read_until(lambda m: m.verb == "PRIVMSG" and m.params[-1:] == ["FLUSH"], 180.0)
+        except (wire.Closed, wire.Timeout) as ex:
+            lines = getattr(ex, "lines", [])
+            self.bad("storm:backlog-lost", "the backlogged receiver's stream ended early (%d lines, %s)"
+                     % (len(lines), type(ex).__name__))
+            lines = None
+        if lines is not None:
+            self.events += len(lines)
+            pos = next((i for i, m in enumerate(lines) if m.verb == "PONG" and m.params[-1:] == ["mine"]), None)
+            msgs = [m for m in lines if m.verb == "PRIVMSG" and m.params[-1].startswith("bl ")]
+            per = {}
+            for m in msgs:
+                _, i, j = m.params[-1].split()[:3]
+                per.setdefault(int(i), []).append(int(j))
+            if any(per.get(i) != list(range(n)) for i in range(k)):
+                self.bad("storm:backlog-copies", "backlog of %d x %d messages: per sender received %s, in order %s"
+                         % (k, n, {i: len(v) for i, v in per.items()}, {i: v == sorted(v) for i, v in per.items()}))
+            total = len(msgs)
+            if pos is None:
+                # the PONG may only come after the flush marker if the server serves the queue first, always
+                self.bad("storm:backlog-starved", "the receiver's own PING was not answered before the last of %d queued "
+                         "messages had been written" % total)
+            else:
+                after = sum(1 for m in lines[pos:] if m.verb == "PRIVMSG")
+                self.classes.add(("backlog", k, n, "pong-before-%d%%" % (10 * int(10.0 * (total - after) / max(total, 1)) + 10)))
+                if total >= 20000 and after < total * 0.03:
+                    self.bad("storm:backlog-starved", "the receiver's own PING was answered only after %d of %d queued "
+                             "messages (%.1f %%) had been written to it: its commands are not served while messages "
+                             "for it are waiting" % (total - after, total, 100.0 * (total - after) / total))
+        for c in snd + [vic]:
+            c.close()
+        self.quiesce(srv, expect_users=[], expect_conns=0, what="backlog teardown")
+
     # ---------------------------------------------------------------- W9 members leaving in the middle of a flood
     def w_quit_flood(self, srv, n):
         """one sender pipelines n numbered messages to a channel; some members leave meanwhile (QUIT, close, PART,
@@ -830,6 +901,8 @@ def worker(args):
                     st.w_limit(srv, r.choice([6, 10]), r.choice([1, 2, 3, 5]))
                 elif kind == "fifo":
                     st.w_order_full(srv, r.choice([3, 5, 12]), r.choice([30, 120]) if quick else r.choice([80, 400]))
+                elif kind == "backlog":
+                    st.w_backlog(srv, 4, 12000)
                 elif kind == "quitflood":
                     st.w_quit_flood(srv, r.choice([600, 1500]) if quick else r.choice([1500, 4000]))
                 elif kind == "stall":
